@@ -388,6 +388,11 @@ func kindsCorpus() []Input {
 			pipe("p755", 0o755), pipe("p644", 0o644), l("a", "b"), l("b", "a"), l("out.sh", "^/ok.sh")),
 		withInit(tr("hooks", f("a.sh", 0o755), l("b.sh", "nowhere"), f("c.sh", 0o755))),
 		withInit(tr("hooks", f("a.sh", 0o755), pipe("b", 0o755), f("c.sh", 0o755))),
+		// F34 (repaired 93bd8af): a link named lib that cannot be resolved (a loop; a dangling one is "not exist") made
+		// Init panic in DirExists; also nested, where only the top-level lib is looked at
+		withInit(tr("lib.d", l("010-l.sh", "010-l.sh"), l("A", "hook.sh"), l("lib", "010-l.sh"))),
+		withInit(tr("hooks", f("a.sh", 0o755), l("lib", "lib"))),
+		withInit(tr("hooks", f("a.sh", 0o755), l("x", "y"), l("y", "x"), l("lib", "x"), d("sub", l("lib", "lib"), f("b.sh", 0o755)))),
 	}
 }
 
